@@ -138,6 +138,9 @@ pub struct Expect {
     pub item_attrs: Vec<ItemExp>,
     /// (type path, field name, public, doc)
     pub field_attrs: Vec<(String, String, bool, Option<String>)>,
+    /// set when a re-exposed function would have to be renamed to `<field>_<name>` and that name is taken as well: two
+    /// functions of one name are not callable (C07), so the program must be rejected (F26)
+    pub reject_name_clash: Option<String>,
 }
 fn unraw(s: &str) -> &str { s.strip_prefix("r#").unwrap_or(s) }
 pub fn program(seed: u64, index: u64, ptr: usize) -> Vec<(&'static str, String)> {
@@ -156,6 +159,7 @@ pub fn program_with_expectation(seed: u64, index: u64, ptr: usize) -> (Vec<(&'st
     let mut exp_enums: Vec<(String, Vec<(String, i128)>, Option<usize>)> = vec![];
     let mut exp_items: Vec<ItemExp> = vec![];
     let mut exp_field_attrs: Vec<(String, String, bool, Option<String>)> = vec![];
+    let mut name_clash: Option<String> = None;
     let n_items = 2 + r.below(6);
     for _ in 0..n_items {
         let m = r.below(mods.len());
@@ -368,6 +372,7 @@ pub fn program_with_expectation(seed: u64, index: u64, ptr: usize) -> (Vec<(&'st
                 if bi > 0 { srcs.extend(bk.vfs.iter().filter(|f| f.public).cloned()); }
                 for f in srcs {
                     let nm = if used.contains(&f.name) { format!("{field}_{}", unraw(&f.name)) } else { f.name.clone() };
+                    if used.contains(&nm) && name_clash.is_none() { name_clash = Some(format!("`{}::{}`: `{}` of base `{field}` - both `{}` and `{nm}` are taken", mods[m], name, f.name, f.name)); }
                     let body = if f.has_recv { BodyExp::Field(field.clone(), f.name.clone()) } else { f.body.clone() };
                     used.push(nm.clone());
                     my_assoc.push(FnExp { name: nm, public: true, cc: f.cc.clone(), has_recv: f.has_recv, body });
@@ -427,5 +432,5 @@ pub fn program_with_expectation(seed: u64, index: u64, ptr: usize) -> (Vec<(&'st
     }
     let items = known.iter().map(|k| (format!("{}::{}", mods[k.module], k.name), k.size, k.align)).collect();
     let fns = known.iter().filter(|k| k.is_struct).map(|k| (format!("{}::{}", mods[k.module], k.name), k.assoc.clone(), k.vfs.clone())).collect();
-    (res, Expect { items, fields: exp_fields, fns, enums: exp_enums, item_attrs: exp_items, field_attrs: exp_field_attrs })
+    (res, Expect { items, fields: exp_fields, fns, enums: exp_enums, item_attrs: exp_items, field_attrs: exp_field_attrs, reject_name_clash: name_clash })
 }
